@@ -22,7 +22,7 @@
 (* Deliberately faithful, defects included (the module header of           *)
 (* AgdbRaft.tla lists them). FixVote switches the one-line repair of D12.  *)
 (***************************************************************************)
-EXTENDS Naturals, Sequences, FiniteSets
+EXTENDS Naturals, Sequences, FiniteSets, TLC
 
 CONSTANTS N,               \* cluster size
           ElectionFactor,  \* election_factor_ms
@@ -60,15 +60,22 @@ StAppend(ns, e) ==
   [ns EXCEPT !.log = Append(kept, [idx |-> e.idx, term |-> e.term, val |-> e.val, com |-> FALSE])]
 
 Uncommitted(ns, index) == {i \in DOMAIN ns.log : ~ns.log[i].com /\ ns.log[i].idx <= index}
+\* (sequences are rebuilt with \o, never with a function constructor: TLC keeps those lazy and re-evaluates
+\*  the nested constructors of earlier steps at every access - exponential over a batch of entries)
+RECURSIVE MarkCommitted(_, _)
+MarkCommitted(log, index) ==
+  IF log = <<>> THEN <<>>
+  ELSE <<IF ~Head(log).com /\ Head(log).idx <= index THEN [Head(log) EXCEPT !.com = TRUE] ELSE Head(log)>>
+       \o MarkCommitted(Tail(log), index)
 StCommit(ns, index) ==
-  IF Uncommitted(ns, index) = {} THEN ns
-  ELSE [ns EXCEPT !.log = [i \in DOMAIN ns.log |-> IF i \in Uncommitted(ns, index)
-                                                   THEN [ns.log[i] EXCEPT !.com = TRUE] ELSE ns.log[i]]]
+  IF Uncommitted(ns, index) = {} THEN ns ELSE [ns EXCEPT !.log = MarkCommitted(ns.log, index)]
 
 Entry(r) == [idx |-> r.idx, term |-> r.term, val |-> r.val]
+RECURSIVE EntriesOf(_)
+EntriesOf(log) == IF log = <<>> THEN <<>> ELSE <<Entry(Head(log))>> \o EntriesOf(Tail(log))
 StLogs(ns, from) ==
   LET cnt == Len(ns.log) IN
-  IF from >= cnt THEN <<>> ELSE [i \in 1..(cnt - from) |-> Entry(ns.log[from + i])]
+  IF from >= cnt THEN <<>> ELSE EntriesOf(SubSeq(ns.log, from + 1, cnt))
 
 \* raft.rs helpers over the store
 AppendStorage(ns, e) == LET s == StAppend(ns, e) IN SetLocal(s, [Local(s) EXCEPT !.li = e.idx, !.lt = e.term])
@@ -159,8 +166,10 @@ AppendEntries(ns, r, es) ==
   ELSE LET e == Head(es)
            v == AppendVerdict(ns, e) IN
        IF v = "err" THEN Ans(ns, LogMismatchRsp(ns))     \* what was applied so far stays
-       ELSE LET s1 == IF v = "app" THEN AppendStorage(ns, e) ELSE ns
-                s2 == IF e.idx <= r.lc /\ Local(s1).lc < e.idx THEN CommitStorage(s1, e.idx) ELSE s1
+       \* TLCEval: TLC evaluates LET definitions lazily and would re-evaluate the whole chain of earlier
+       \* entries at every use (exponential in the length of the batch)
+       ELSE LET s1 == TLCEval(IF v = "app" THEN AppendStorage(ns, e) ELSE ns)
+                s2 == TLCEval(IF e.idx <= r.lc /\ Local(s1).lc < e.idx THEN CommitStorage(s1, e.idx) ELSE s1)
             IN AppendEntries(s2, r, Tail(es))
 
 AppendRequest(ns, r) ==
@@ -250,14 +259,16 @@ PrevEntryMismatch(old, new) ==
     /\ LET e == LastRec(new[n]) IN
        /\ ~e.com /\ e.idx > 1 /\ Entry(e) \notin Stored(old[n])
        /\ \E m \in Node \ {n} : Entry(e) \in Stored(new[m]) /\ EntriesAt(new[m], e.idx - 1) # EntriesAt(new[n], e.idx - 1)
-\* D13 (commit rule): a leader marks an entry committed that is not stored on a majority of the nodes (it counted
-\* a peer by the index its own REQUEST carried), or an entry of an older term than its own
+\* D13 (commit rule): a leader whose per-peer view counts a proper majority at an index (the arithmetic is right)
+\* marks an entry committed that is in fact stored on fewer nodes - it believed a peer held what its own REQUEST
+\* carried - or marks an entry of an older term than its own
 CommitWithoutMajority(old, new) ==
   \E n \in Node :
     /\ old[n].st = "Leader"
     /\ \E e \in Committed(new[n]) \ Committed(old[n]) :
-         \/ Cardinality({m \in Node : e \in Stored(new[m])}) < Quorum + 1
-         \/ e.term < new[n].term
+         /\ Cardinality({p \in Node : new[n].view[p].li >= e.idx}) >= Quorum + 1
+         /\ \/ Cardinality({m \in Node : e \in Stored(new[m])}) < Quorum + 1
+            \/ e.term < new[n].term
 \* D13c (check-then-act): Cluster::append ran on a node that is not the leader
 AppendAtNonLeader(old, new) ==
   \E n \in Node : old[n].st # "Leader" /\ Local(new[n]).li = Local(old[n]).li + 1 /\ new[n].st = old[n].st
